@@ -89,7 +89,9 @@ def aiter_count(ex, p, it):
 
 # ----------------------------------------------------------------------------- one generic element
 def _ref(p, v):
-    cell = ('H', f'elem{p.seq("elem")}', '')
+    # the cell is named after the value it holds, so names derived from a reference to a generic element stay traceable
+    nm = vname(v) if not isinstance(v, Agg) else None
+    cell = ('H', f'ref({nm})' if nm and len(nm) < 80 else f'elem{p.seq("elem")}', '')
     p.mem[cell] = v
     return Ptr(cell, (), False)
 
@@ -140,6 +142,12 @@ def gen_elem(ex, p, it, call, k, k_skip):
                     from .models import split_enum, OPTION, opt_payload_ty
                     split_enum(ex, q3, o, 'Option', OPTION, lambda q4, name, pay: run(q4, pay[0], i + 1) if name == 'Some' else k_skip(q4), opt_payload_ty(o))
                 return ex.call_closure(q2, st.fields[0], [e], call, after)
+            if kind == 'try':
+                # collecting into Result<C, E> / Option<C>: the collection holds the Ok/Some payloads
+                from .models import split_enum, RESULT, OPTION, res_payload_ty, opt_payload_ty
+                if isinstance(e, Agg) and e.name == 'Option' or (isinstance(e, Sym) and re.search(r'\bOption<', e.ty or '')):
+                    return split_enum(ex, q2, e, 'Option', OPTION, lambda q4, name, pay: run(q4, pay[0], i + 1) if name == 'Some' else k_skip(q4), opt_payload_ty(e))
+                return split_enum(ex, q2, e, 'Result', RESULT, lambda q4, name, pay: run(q4, pay[0], i + 1) if name == 'Ok' else k_skip(q4), res_payload_ty(e))
             return run(q2, e, i + 1)       # take / skip: counts only
         run(q, e0, 0)
     if inner is not None:
@@ -181,6 +189,8 @@ def m_into_iter(ex, p, call, k):
     if v is not None:
         return k(p, v)
     c = _coll(ex, p, a)
+    if isinstance(c, Sym) and isinstance(c.get_ov('items'), Agg):
+        return NotImplemented            # a vector whose elements are known on this path: the finite model
     if isinstance(c, Sym) and (c.get_ov('collected') is not None or MAP_RE.search(c.ty) or SET_RE.search(c.ty) or SEQ_RE.search(c.ty)):
         return k(p, mk(a, 'into_iter', trav=p.seq(f'trav:{vname(c)}')))
     return NotImplemented
@@ -192,7 +202,7 @@ def m_coll_iter(ex, p, call, k):
     c = _coll(ex, p, a)
     if as_array(ex, p, a) is not None if isinstance(a, Ptr) else False:
         return NotImplemented            # arrays of known content: the finite SliceIter model
-    if not isinstance(c, Sym):
+    if not isinstance(c, Sym) or isinstance(c.get_ov('items'), Agg):
         return NotImplemented
     return k(p, mk(a, meth, trav=p.seq(f'trav:{vname(c)}')))
 
@@ -259,6 +269,31 @@ def m_collect(ex, p, call, k):
     if it is None:
         return NotImplemented
     name = f'collect#{p.seq("collect")}'
+    wrap = re.match(r'^(?:std::|core::)?(?:result::|option::)?(Result|Option)<', (call.retty or '').strip())
+    if wrap:
+        # FromIterator for Result<C, E> / Option<C>: Err/None if some element is, else the collection of the payloads
+        src, mode, stages, y = parts(it)
+        it2 = mk(src, mode, stages + [stage('try')], y, trav_of(it))
+        inner_ty = generic_arg(call.retty, 0) or ''
+        coll = Sym(name, inner_ty).with_ov('collected', it2)
+        bad = p.clone()
+        bad.events.append(Event('collect', 'short-circuit', (it,), None, call.span, call.depth))
+        if wrap.group(1) == 'Result':
+            from .models import err, ok
+            k(bad, err(ex.fresh(f'{name}@Err.0', generic_arg(call.retty, 1) or '')))
+            good = ok(coll)
+        else:
+            k(bad, NONE)
+            good = some(coll)
+        empty = p.clone()
+        empty.events.append(Event('collect', 'empty', (coll, it2), None, call.span, call.depth))
+        k(empty, good)
+
+        def got2(q, item, e0):
+            q.events.append(Event('collect-item', name, (item, e0, coll), None, call.span, call.depth))
+            k(q, good)
+        p.events.append(Event('next', 'Some', (None, None, it2), None, call.span, call.depth))
+        return gen_elem(ex, p, it2, call, got2, lambda q: None)
     res = Sym(name, call.retty).with_ov('collected', it)
     empty = p.clone()
     empty.events.append(Event('collect', 'empty', (res, it), None, call.span, call.depth))
@@ -308,6 +343,34 @@ def m_for_each(ex, p, call, k):
     gen_elem(ex, p, it, call, got, lambda q: k(q, UNIT))
 
 
+def m_search(ex, p, call, k):
+    """find / any / all / position over an abstract iterator: `hit` = some (generic) element decides the search - the
+    predicate is executed on it and its verdict assumed; `none` = no element does (nothing is assumed about the elements)"""
+    it = _get(call.args[0], ex, p)
+    if it is None:
+        return NotImplemented
+    meth = call.short.rsplit('::', 1)[-1]
+    clo = call.args[1]
+    nf = p.clone()
+    nf.events.append(Event('search', meth, (it, None, None, Str('none')), None, call.span, call.depth))
+    k(nf, {'find': NONE, 'position': NONE, 'any': z3.BoolVal(False), 'all': z3.BoolVal(True)}[meth])
+
+    def got(q, item, e0):
+        arg = _ref(q, item) if meth == 'find' else item
+
+        def after(q2, b):
+            c_ = b if isinstance(b, z3.ExprRef) and z3.is_bool(b) else (b != z3.BitVecVal(0, b.size()) if isinstance(b, z3.ExprRef) else ex.to_bv(b, 8) != 0)
+            hit = z3.Not(c_) if meth == 'all' else c_
+            if not ex.feasible(q2.pc, hit):
+                return
+            if not z3.is_true(z3.simplify(hit)):
+                q2.pc.append(hit)
+            q2.events.append(Event('search', meth, (it, item, c_, Str('hit'), e0), None, call.span, call.depth))
+            k(q2, {'find': some(item), 'position': some(ex.fresh(f'position#{q2.seq("pos")}', 'usize')), 'any': z3.BoolVal(True), 'all': z3.BoolVal(False)}[meth])
+        ex.call_closure(q, clo, [arg], call, after)
+    gen_elem(ex, p, it, call, got, lambda q: None)
+
+
 def m_count(ex, p, call, k):
     it = _get(call.args[0], ex, p)
     if it is None:
@@ -338,5 +401,6 @@ ITER_MODELS = [
     (R(r' as Iterator>::fold$'), m_fold),
     (R(r' as Iterator>::for_each$'), m_for_each),
     (R(r' as Iterator>::count$'), m_count),
+    (R(r' as Iterator>::(find|any|all|position)$'), m_search),
     (R(r'(Vec|VecDeque|HashMap|BTreeMap|HashSet|BTreeSet)::(len|is_empty)$|(^|::)slice::(<impl[^>]*>::)?(len|is_empty)$'), m_len_collected),
 ]
